@@ -60,6 +60,41 @@ type c13Plan struct {
 	// realNursery: pre-anchor kinds run the real UtxoNursery on a real
 	// NurseryStore (else the world-level stub).
 	realNursery bool
+
+	// offline: blocks mined while the process is down. The restart after
+	// the process died with k effects on record (k counted over the whole
+	// run) is preceded by offline[k%len(offline)] blocks; see
+	// c13MineOffline for what happens in them and for the cap.
+	offline []int
+}
+
+// c13CSV is the CSV delay of every second-level / to_local output of the
+// generated resolutions (ccScenario.resolutions).
+const c13CSV = 4
+
+// c13OfflineChoices: downtime lengths around the CSV maturity of an output
+// whose transaction confirms right at / before the stop, and a few longer.
+var c13OfflineChoices = []int{
+	0, 0, 1, 2, c13CSV - 1, c13CSV, c13CSV + 1, c13CSV + 3, 2*c13CSV + 3,
+}
+
+func (p *c13Plan) offlineAt(effects int) int {
+	if len(p.offline) == 0 {
+		return 0
+	}
+
+	return p.offline[effects%len(p.offline)]
+}
+
+func (p *c13Plan) maxOffline() int {
+	m := 0
+	for _, d := range p.offline {
+		if d > m {
+			m = d
+		}
+	}
+
+	return m
 }
 
 func (p *c13Plan) String() string {
@@ -70,9 +105,11 @@ func (p *c13Plan) String() string {
 	sort.Strings(cl)
 
 	return fmt.Sprintf("conf=%s pre=%v preHeight=%d closeHeight=%d "+
-		"claims=%v horizon=%d kind=%s tap=%d blobs=%v realNursery=%v",
+		"claims=%v horizon=%d kind=%s tap=%d blobs=%v realNursery=%v "+
+		"offline=%v",
 		ccConfNames[p.conf], p.pre, p.preHeight, p.closeHeight, cl,
-		p.horizon, c13KindNames[p.kind], p.tap, p.blobs, p.realNursery)
+		p.horizon, c13KindNames[p.kind], p.tap, p.blobs, p.realNursery,
+		p.offline)
 }
 
 // c13Outcome is what an observer outside the process can see at the end.
@@ -89,14 +126,29 @@ type c13Outcome struct {
 	closed     bool
 
 	// bookkeeping
-	effects       int
-	effLog        []string
-	broadcast     bool
-	incarnations  int
-	notifyUnres   []int
-	crashStates   []ArbitratorState // persisted state at each death
-	crashLast     []string          // last effect before each death
-	crashAt       []int             // number of effects at each death
+	effects      int
+	effLog       []string
+	broadcast    bool
+	incarnations int
+	notifyUnres  []int
+	crashStates  []ArbitratorState // persisted state at each death
+	crashLast    []string          // last effect before each death
+	crashAt      []int             // number of effects at each death
+	// offline: blocks mined before each restart; offlineCapped: downtimes
+	// cut short (a contested deadline / channel not yet marked closed);
+	// offlineConfirmed: published transactions that confirmed while the
+	// node was down; offlineMatured: second-level outputs (of transactions
+	// in the nursery's / the resolvers' hands) whose CSV delay ran out
+	// while the node was down; endHeight: chain height at the end.
+	offline          []int
+	offlineCapped    int
+	offlineConfirmed int
+	offlineMatured   int
+	endHeight        int32
+	// cribLate: a timeout transaction the nursery published confirmed AND
+	// its CSV delay ran out while the node was down, before CribToKinder
+	// was recorded (candidate finding c13KeyCribLate).
+	cribLate      bool
 	inconclusive  string
 	contradiction []uint64
 
@@ -371,7 +423,20 @@ func c13Run(t *testing.T, sc *ccScenario, plan *c13Plan,
 				w.effLog[len(w.effLog)-1])
 		}
 		out.crashAt = append(out.crashAt, len(w.effLog))
+		want := plan.offlineAt(len(w.effLog))
 		w.mu.Unlock()
+
+		// The chain moves on while the node is down.
+		d, conf, mat := env.mineOffline(want)
+		out.offline = append(out.offline, d)
+		if d < want {
+			out.offlineCapped++
+		}
+		out.offlineConfirmed += conf
+		out.offlineMatured += mat
+		if d > 0 && env.cribLate() {
+			out.cribLate = true
+		}
 	}
 
 	// Read the durable end state from the file.
@@ -432,6 +497,7 @@ func c13Run(t *testing.T, sc *ccScenario, plan *c13Plan,
 	out.preimages = c13Set(out.preimages)
 	out.resolved = w.fullyResolved > 0
 	out.closed = w.closed
+	out.endHeight = w.height
 	out.effects = w.nEffects
 	out.effLog = append([]string(nil), w.effLog...)
 	out.broadcast = w.forceClose > 0
@@ -450,6 +516,203 @@ func c13Run(t *testing.T, sc *ccScenario, plan *c13Plan,
 	out.publishedConfirmed = env.publishedConfirmed
 
 	return out
+}
+
+// mineOffline lets the chain advance by up to want blocks while no process
+// life exists (called between the death of one life and the start of the
+// next). It follows the timing model of the live loop, in which everything
+// the node has published confirms before the next block is mined:
+//
+//   - the second-level transactions the node (a resolver or the nursery)
+//     published and that still sit in the world's mempool confirm at the
+//     current height, while the HTLC outpoint is unspent;
+//   - then the blocks are mined; the peer's planned on-chain claims happen at
+//     their heights; CSV delays run out.
+//
+// Nothing is delivered to anybody: the subscriptions died with the process.
+// The next life finds the result the way lnd's notifier presents it: the tip
+// from ChainIO.GetBestBlock / as the first block epoch of a subscriber that
+// names no best block, historical confirmations and spends when it registers
+// again (pumped lazily, before the next block), epochs after that only for
+// new blocks. Requests the dead life had pending with the (non-persistent)
+// sweeper are gone, as at every restart.
+//
+// Restrictions (the downtime is cut short, counted as offline_capped):
+//   - no block is mined before the channel is marked closed: until then the
+//     restarted arbitrator evaluates its chain trigger at the restart height,
+//     and whether it broadcasts depends on that height by design (C12);
+//   - no planned claim of the peer on a still unspent HTLC output falls into
+//     the downtime: whether the peer or our timeout path wins that output
+//     depends on who is first (lnd starts the timeout path at expiry-1 from
+//     a contest resolver and at once from a timeout resolver, and the stub
+//     sweeper confirms a request when pumped), and an absent node is never
+//     first - a legitimate difference, not a restart defect;
+//   - if the peer has claimed an offered HTLC before that HTLC's expiry, the
+//     downtime ends before expiry-1: an outgoing contest resolver restored at
+//     or after expiry-1 starts its timeout path (swap, nursery hand-off)
+//     before it looks at the spend - same end, different hand-offs;
+//   - while the contest of an incoming HTLC is undecided (its contest
+//     resolver neither swapped for a success resolver nor given up), the
+//     downtime does not reach the earliest expiry of an incoming HTLC: a node
+//     that is down at the expiry can no longer claim with a preimage it knows
+//     or would have learnt in time (lnd gives the HTLC up at its expiry);
+//   - the chain does not grow beyond the common last height of the scenario.
+//
+// Every other height the downtime crosses (CSV maturities, confirmation
+// depths, expiries of uncontested HTLCs) must not change the outcome.
+func (e *c13Env) mineOffline(want int) (d, confirmed, matured int) {
+	w := e.w
+	w.mu.Lock()
+	defer w.mu.Unlock()
+	if want <= 0 || !w.closed {
+		return 0, 0, 0
+	}
+	h0 := w.height
+	d = want
+	if room := int(e.plan.horizon - h0); room < d {
+		d = room
+	}
+	for i, h := range e.plan.claims {
+		x := &e.sc.HTLCs[i]
+		op := wire.OutPoint{
+			Hash:  ccCommitHash(e.plan.conf),
+			Index: uint32(x.Out[e.plan.conf]),
+		}
+		if _, ok := w.spent[op]; ok || h <= h0 {
+			// Claimed already. A contest resolver that is restored
+			// at or after expiry-1 goes for the timeout path first
+			// (SwapContract, IncubateOutputs) and only then sees
+			// the claim; one that saw the claim earlier does not.
+			if room := int(int32(x.Expiry) - 1 - h0 - 1); h <= h0 &&
+				int32(x.Expiry)-1 > h0 && room < d {
+
+				d = room
+			}
+
+			continue
+		}
+		if room := int(h - h0 - 1); room < d {
+			d = room
+		}
+	}
+	// Incoming HTLCs whose contest is not decided yet (neither swapped for
+	// a success resolver nor given up).
+	undecided := 0
+	var minExp int32
+	if e.plan.conf <= ccP {
+		for i := range e.sc.HTLCs {
+			x := &e.sc.HTLCs[i]
+			if !x.Incoming || !x.hasOutput(e.plan.conf) {
+				continue
+			}
+			undecided++
+			if E := int32(x.Expiry); E > h0 && (minExp == 0 || E < minExp) {
+				minExp = E
+			}
+		}
+		for _, eff := range w.effLog {
+			if (strings.HasPrefix(eff, "SwapContract(*contractcourt."+
+				"htlcIncomingContestResolver->") &&
+				strings.HasSuffix(eff, "htlcSuccessResolver)")) ||
+				eff == "ResolveContract(*contractcourt."+
+					"htlcIncomingContestResolver)" {
+
+				undecided--
+			}
+		}
+	}
+	if undecided > 0 && minExp > 0 {
+		if room := int(minExp - h0 - 1); room < d {
+			d = room
+		}
+	}
+	if d <= 0 {
+		return 0, 0, 0
+	}
+
+	var ops []wire.OutPoint
+	for op := range e.mempool {
+		if _, ok := w.spent[op]; !ok {
+			ops = append(ops, op)
+		}
+	}
+	sort.Slice(ops, func(i, j int) bool {
+		return ops[i].String() < ops[j].String()
+	})
+	for _, op := range ops {
+		w.spendLocked(op, e.mempool[op])
+		e.publishedConfirmed++
+		if e.nurseryPublished[op] {
+			e.nurseryTimeoutTx++
+		}
+		confirmed++
+	}
+	for i := 0; i < d; i++ {
+		w.height++
+		w.applyClaimsLocked()
+		e.applyClaimsLocked()
+	}
+
+	// Second-level outputs of our own transactions whose CSV delay ran out
+	// in those blocks.
+	own := map[wire.OutPoint]*wire.MsgTx{}
+	for op, tx := range e.mempool {
+		own[op] = tx
+	}
+	for op, k := range e.kids {
+		own[op] = k.tx
+	}
+	for op, tx := range own {
+		det, ok := w.spent[op]
+		if !ok || *det.SpenderTxHash != tx.TxHash() {
+			continue
+		}
+		m := det.SpendingHeight + c13CSV
+		if m > h0 && m <= w.height {
+			matured++
+		}
+	}
+
+	return d, confirmed, matured
+}
+
+// cribLate reports whether, at the current (restart) tip, the second-level
+// output of a timeout transaction published by the real nursery is already
+// mature while the nursery store has not yet moved it from crib to
+// kindergarten.
+func (e *c13Env) cribLate() bool {
+	w := e.w
+	w.mu.Lock()
+	defer w.mu.Unlock()
+	for op := range e.nurseryPublished {
+		tx, det := e.mempool[op], w.spent[op]
+		if tx == nil || det == nil || *det.SpenderTxHash != tx.TxHash() {
+			continue
+		}
+		if det.SpendingHeight+c13CSV <= w.height && !e.cribMoved[op] {
+			return true
+		}
+	}
+
+	return false
+}
+
+// c13CribStore notes which crib outputs (by HTLC outpoint) the nursery store
+// has durably moved to the kindergarten.
+type c13CribStore struct {
+	NurseryStorer
+	env *c13Env
+}
+
+func (s *c13CribStore) CribToKinder(b *babyOutput) error {
+	err := s.NurseryStorer.CribToKinder(b)
+	if err == nil && b.timeoutTx != nil && len(b.timeoutTx.TxIn) > 0 {
+		s.env.w.mu.Lock()
+		s.env.cribMoved[b.timeoutTx.TxIn[0].PreviousOutPoint] = true
+		s.env.w.mu.Unlock()
+	}
+
+	return err
 }
 
 // c13K1Class reports whether an upstream resolution string "idx:false" is a
@@ -485,6 +748,7 @@ const (
 	c13KeyContractClosedRestart = "C13:restart-in-contract-closed-uses-chain-trigger"
 	c13KeyResolvedNotDeleted    = "C13:resolved-checkpoint-never-deleted-after-restart"
 	c13KeyTaprootPreimageLost   = "C13:taproot-restart-drops-success-preimage"
+	c13KeyCribLate              = "C13:nursery-crib-matured-while-down-not-swept"
 )
 
 // c13PersistedState derives the arbitrator state on disk from the effect
@@ -654,6 +918,17 @@ func c13GenPlan(rt *rapid.T, sc *ccScenario) *c13Plan {
 	// at the expiry, CSV (4) on top of it.
 	p.horizon = int32(maxExp) + 12
 
+	// Blocks mined while the node is down: three downtime lengths, picked
+	// by the number of effects on record at the stop, so that one scenario
+	// has restarts without and with downtime. Every run of the scenario
+	// (the uninterrupted one too) is driven to the same last height:
+	// horizon + the longest total downtime of a double crash.
+	// (Drawn last: all other draws of the scenario / plan keep their place.)
+	p.offline = rapid.SliceOfN(
+		rapid.SampledFrom(c13OfflineChoices), 3, 3,
+	).Draw(rt, "offlineBlocks")
+	p.horizon += int32(2 * p.maxOffline())
+
 	return p
 }
 
@@ -689,6 +964,21 @@ func c13Compare(base, run *c13Outcome, sc *ccScenario, plan *c13Plan,
 
 			return nil
 		}
+	}
+
+	// Candidate finding: NurseryStore.CribToKinder files the second-level
+	// output of a timeout transaction under confHeight+CSV without the
+	// late-registration bump PreschoolToKinder has; if that height is
+	// already at or below the tip when the (historical) confirmation is
+	// processed after a restart, the class is never graduated in that
+	// process life (the incubator graduates only the height of each new
+	// block; only the next restart's reloadClasses finds it). The whole
+	// run is skipped, only if the key is listed.
+	if run.cribLate && ccKnown(c13KeyCribLate) {
+		st.Known(c13KeyCribLate)
+		st.Count("excluded_known", 1)
+
+		return nil
 	}
 
 	// Candidate finding: on a taproot channel a restart replaces the
@@ -924,11 +1214,13 @@ func TestVerifC13Crash(t *testing.T) {
 
 			rt.Fatalf("%s crashes=%v: %v\nscenario=%v\nplan=%v\n"+
 				"uninterrupted effects=%v\nrestarted   effects=%v\n"+
-				"uninterrupted msgs=%v finals=%v state=%v\n"+
-				"restarted     msgs=%v finals=%v state=%v", what,
+				"uninterrupted msgs=%v finals=%v state=%v end=%d\n"+
+				"restarted     msgs=%v finals=%v state=%v end=%d "+
+				"died_at=%v offline_blocks=%v", what,
 				crashes, err, sc.sample(), plan, base.effLog,
 				run.effLog, base.msgs, base.finals, base.state,
-				run.msgs, run.finals, run.state)
+				base.endHeight, run.msgs, run.finals, run.state,
+				run.endHeight, run.crashAt, run.offline)
 		}
 
 		for k := 1; k <= W; k++ {
@@ -939,10 +1231,20 @@ func TestVerifC13Crash(t *testing.T) {
 				"CommitState") && !strings.HasPrefix(
 				base.effLog[k-1], "ResolveContract")
 			cl := []string{"crash_after=" + c13EffKind(base.effLog[k-1])}
+			cl = append(cl, c13OfflineLabels(run, plan)...)
 			if run.inconclusive != "" {
 				st.Count("inconclusive", 1)
 				st.Case(vstats.FP(sc.fp(), plan.String(), k), false,
 					append(cl, "inconclusive"), nil)
+
+				continue
+			}
+			if !c13SameEnd(base, run, plan) {
+				// Cannot happen by construction (every run that
+				// is not fully resolved is driven to the common
+				// last height); never held against lnd.
+				st.Count("inconclusive", 1)
+				st.Count("end_height_differs", 1)
 
 				continue
 			}
@@ -971,12 +1273,19 @@ func TestVerifC13Crash(t *testing.T) {
 
 					continue
 				}
+				if !c13SameEnd(base, run, plan) {
+					st.Count("inconclusive", 1)
+					st.Count("end_height_differs", 1)
+
+					continue
+				}
 				err := c13Compare(base, run, sc, plan, st)
 				if err != nil {
 					report("double crash", []int{k1, k2}, run, err)
 				}
 				st.Case(vstats.FP(sc.fp(), plan.String(), k1, k2, "d"),
-					true, []string{"double_crash"}, nil)
+					true, append([]string{"double_crash"},
+						c13OfflineLabels(run, plan)...), nil)
 			}
 		}
 		st.Count("scenarios", 1)
@@ -984,6 +1293,49 @@ func TestVerifC13Crash(t *testing.T) {
 			st.Count("scenarios_without_effects", 1)
 		}
 	})
+}
+
+// c13SameEnd: both runs were driven over the same chain: a run that did not
+// become fully resolved ended at the scenario's common last height.
+func c13SameEnd(base, run *c13Outcome, plan *c13Plan) bool {
+	for _, o := range []*c13Outcome{base, run} {
+		if !o.resolved && o.endHeight != plan.horizon {
+			return false
+		}
+	}
+
+	return true
+}
+
+// c13OfflineLabels classifies the downtime(s) of a crashed run.
+func c13OfflineLabels(run *c13Outcome, plan *c13Plan) []string {
+	total := 0
+	for _, d := range run.offline {
+		total += d
+	}
+	var l []string
+	switch {
+	case total == 0:
+		l = append(l, "offline=0")
+	case total < c13CSV:
+		l = append(l, "offline=1.."+fmt.Sprint(c13CSV-1))
+	default:
+		l = append(l, "offline>=csv")
+	}
+	if run.offlineCapped > 0 {
+		l = append(l, "offline_capped")
+	}
+	if run.offlineConfirmed > 0 {
+		l = append(l, "offline_tx_confirmed")
+	}
+	if run.offlineMatured > 0 {
+		l = append(l, "offline_csv_matured")
+		if plan.realNursery {
+			l = append(l, "offline_csv_matured_real_nursery")
+		}
+	}
+
+	return l
 }
 
 func c13EffKind(e string) string {
